@@ -884,3 +884,298 @@ theorem history_frame {α} {G : FrozenFacts} (hG : G.frozenOK = true) (calls : L
     simpa [execHistory] using this
 
 end C05
+
+/-! Part 5: the text form (`format_float`). -/
+namespace B64
+
+/-- `-?[0-9]+(\.[0-9]{1,6})?` -/
+def shapeOK (l : List Char) : Bool :=
+  let l := match l with
+    | '-' :: r => r
+    | r => r
+  let ip := l.takeWhile isDigit
+  let r := l.dropWhile isDigit
+  !ip.isEmpty && (match r with
+    | [] => true
+    | '.' :: fp => !fp.isEmpty && decide (fp.length ≤ 6) && fp.all isDigit
+    | _ => false)
+
+theorem isDigit_digitChar (d : Nat) : isDigit (digitChar d) = true := by
+  unfold digitChar
+  have h : d % 10 < 10 := Nat.mod_lt _ (by decide)
+  generalize d % 10 = k at h
+  have : ∀ k : Fin 10, isDigit (Char.ofNat (48 + k.val)) = true := by decide
+  exact this ⟨k, h⟩
+
+theorem digitChar_ne_dot (d : Nat) : digitChar d ≠ '.' := by
+  intro h
+  have := isDigit_digitChar d
+  rw [h] at this
+  exact absurd this (by decide)
+
+theorem digitChar_ne_minus (d : Nat) : digitChar d ≠ '-' := by
+  intro h
+  have := isDigit_digitChar d
+  rw [h] at this
+  exact absurd this (by decide)
+
+theorem natDigitsAux_spec : ∀ (fuel n : Nat) (acc : List Char), 0 < fuel →
+    ∃ pre, natDigitsAux fuel n acc = pre ++ acc ∧ pre ≠ [] ∧ ∀ c ∈ pre, isDigit c = true := by
+  intro fuel
+  induction fuel with
+  | zero => intro n acc h; cases h
+  | succ k ih =>
+    intro n acc _
+    unfold natDigitsAux
+    split
+    · exact ⟨[digitChar n], rfl, by simp, by intro c hc; simp at hc; rw [hc]; exact isDigit_digitChar n⟩
+    · cases k with
+      | zero =>
+        refine ⟨[digitChar (n % 10)], ?_, by simp, by intro c hc; simp at hc; rw [hc]; exact isDigit_digitChar _⟩
+        simp [natDigitsAux]
+      | succ j =>
+        obtain ⟨pre, h1, h2, h3⟩ := ih (n / 10) (digitChar (n % 10) :: acc) (Nat.succ_pos j)
+        refine ⟨pre ++ [digitChar (n % 10)], ?_, by simp, ?_⟩
+        · rw [h1]; simp
+        · intro c hc
+          rcases List.mem_append.1 hc with hc | hc
+          · exact h3 c hc
+          · simp at hc; rw [hc]; exact isDigit_digitChar _
+
+theorem natDigits_spec (n : Nat) : natDigits n ≠ [] ∧ ∀ c ∈ natDigits n, isDigit c = true := by
+  obtain ⟨pre, h1, h2, h3⟩ := natDigitsAux_spec (Nat.log2 n + 1) n [] (Nat.succ_pos _)
+  unfold natDigits
+  rw [h1, List.append_nil]
+  exact ⟨h2, h3⟩
+
+theorem pad6_all (f : Nat) : ∀ c ∈ pad6 f, isDigit c = true := by
+  intro c hc
+  simp only [pad6, List.mem_cons, List.mem_nil_iff, or_false] at hc
+  rcases hc with h | h | h | h | h | h <;> rw [h] <;> exact isDigit_digitChar _
+
+theorem pad6_length (f : Nat) : (pad6 f).length = 6 := rfl
+
+/-! `rstrip` on structured text -/
+
+theorem rstrip_all_digits_noop_dot (l : List Char) (hne : l ≠ []) (h : ∀ c ∈ l, isDigit c = true) :
+    rstrip '.' l = l := by
+  unfold rstrip
+  have hr : l.reverse ≠ [] := by simpa using hne
+  cases hrev : l.reverse with
+  | nil => exact absurd hrev hr
+  | cons a t =>
+    have ha : a ∈ l := by
+      have : a ∈ l.reverse := by rw [hrev]; simp
+      simpa using this
+    have hd : isDigit a = true := h a ha
+    have hne' : (a == '.') = false := by
+      cases hq : (a == '.')
+      · rfl
+      · have : a = '.' := by simpa using hq
+        rw [this] at hd; exact absurd hd (by decide)
+    simp only [List.dropWhile_cons, hne']
+    rw [← hrev]; simp
+
+theorem rstrip_subset (c : Char) (l : List Char) : ∀ x ∈ rstrip c l, x ∈ l := by
+  intro x hx
+  unfold rstrip at hx
+  have : x ∈ l.reverse.dropWhile (· == c) := by simpa using hx
+  have := (List.dropWhile_sublist _).subset this
+  simpa using this
+
+theorem rstrip_length_le (c : Char) (l : List Char) : (rstrip c l).length ≤ l.length := by
+  unfold rstrip
+  have := (List.dropWhile_sublist (fun x => x == c) (l := l.reverse)).length_le
+  simpa using this
+
+/-- stripping `c` from `A ++ B`: only `B` is affected unless all of `B` goes -/
+theorem rstrip_append (c : Char) (A B : List Char) :
+    rstrip c (A ++ B) = if rstrip c B = [] then rstrip c A else A ++ rstrip c B := by
+  unfold rstrip
+  rw [List.reverse_append, List.dropWhile_append]
+  by_cases h : (B.reverse.dropWhile (· == c)).isEmpty = true
+  · have h' : B.reverse.dropWhile (· == c) = [] := by simpa using h
+    simp [h']
+  · have h' : B.reverse.dropWhile (· == c) ≠ [] := by simpa using h
+    simp [h']
+
+theorem rstrip_last_ne (c : Char) (l : List Char) (h : rstrip c l ≠ []) :
+    ∃ t a, rstrip c l = t ++ [a] ∧ a ≠ c := by
+  unfold rstrip at *
+  cases hd : l.reverse.dropWhile (· == c) with
+  | nil => rw [hd] at h; simp at h
+  | cons a t =>
+    refine ⟨t.reverse, a, by simp, ?_⟩
+    have hw : List.dropWhile (fun x => x == c) l.reverse ≠ [] := by rw [hd]; simp
+    have := List.head_dropWhile_not (fun x => x == c) hw
+    simp only [hd, List.head_cons] at this
+    simpa using this
+
+
+theorem tw_all (p : Char → Bool) (D r : List Char) (h : ∀ c ∈ D, p c = true) :
+    (D ++ r).takeWhile p = D ++ r.takeWhile p := by
+  induction D with
+  | nil => rfl
+  | cons d t ih =>
+    have hd : p d = true := h d (by simp)
+    simp only [List.cons_append, List.takeWhile_cons, hd, if_true]
+    rw [ih (fun c hc => h c (by simp [hc]))]
+
+theorem dw_all (p : Char → Bool) (D r : List Char) (h : ∀ c ∈ D, p c = true) :
+    (D ++ r).dropWhile p = r.dropWhile p := by
+  induction D with
+  | nil => rfl
+  | cons d t ih =>
+    have hd : p d = true := h d (by simp)
+    simp only [List.cons_append, List.dropWhile_cons, hd, if_true]
+    exact ih (fun c hc => h c (by simp [hc]))
+
+/-- the two possible outcomes of the stripping are of the required shape -/
+theorem shape_of_parts (s : Bool) (D F : List Char) (hD : D ≠ []) (hDd : ∀ c ∈ D, isDigit c = true)
+    (hF : F = [] ∨ (F.length ≤ 6 ∧ ∀ c ∈ F, isDigit c = true)) :
+    shapeOK ((if s then ['-'] else []) ++ D ++ (if F = [] then [] else '.' :: F)) = true := by
+  obtain ⟨d, t, rfl⟩ : ∃ d t, D = d :: t := by
+    cases D with
+    | nil => exact absurd rfl hD
+    | cons d t => exact ⟨d, t, rfl⟩
+  have hd : isDigit d = true := hDd d (by simp)
+  have hdm : d ≠ '-' := by
+    intro h; rw [h] at hd; exact absurd hd (by decide)
+  -- what remains after the optional sign
+  have key : ∀ rest : List Char, (rest = [] ∨ ∃ F', rest = '.' :: F' ∧ F' ≠ [] ∧ F'.length ≤ 6 ∧ ∀ c ∈ F', isDigit c = true) →
+      (!((d :: t ++ rest).takeWhile isDigit).isEmpty && (match (d :: t ++ rest).dropWhile isDigit with
+        | [] => true
+        | '.' :: fp => !fp.isEmpty && decide (fp.length ≤ 6) && fp.all isDigit
+        | _ => false)) = true := by
+    intro rest hrest
+    rw [tw_all isDigit (d :: t) rest hDd, dw_all isDigit (d :: t) rest hDd]
+    rcases hrest with rfl | ⟨F', rfl, hne, hlen, hall⟩
+    · simp
+    · have hdot : isDigit '.' = false := by decide
+      simp only [List.dropWhile_cons, hdot, Bool.false_eq_true, if_false]
+      simp only [List.cons_append, List.isEmpty_cons, Bool.not_false, Bool.true_and]
+      have h1 : F'.isEmpty = false := by
+        cases F' with
+        | nil => exact absurd rfl hne
+        | cons _ _ => rfl
+      have h3 : F'.all isDigit = true := List.all_eq_true.2 hall
+      simp [h1, hlen, h3]
+  have hrest : (if F = [] then ([] : List Char) else '.' :: F) = [] ∨
+      ∃ F', (if F = [] then ([] : List Char) else '.' :: F) = '.' :: F' ∧ F' ≠ [] ∧ F'.length ≤ 6 ∧ ∀ c ∈ F', isDigit c = true := by
+    by_cases hF0 : F = []
+    · left; simp [hF0]
+    · right
+      rcases hF with h | ⟨h1, h2⟩
+      · exact absurd h hF0
+      · exact ⟨F, by simp [hF0], hF0, h1, h2⟩
+  have := key _ hrest
+  unfold shapeOK
+  cases s with
+  | true =>
+    simp only [if_true, List.cons_append, List.nil_append]
+    exact this
+  | false =>
+    simp only [Bool.false_eq_true, if_false, List.nil_append, List.cons_append]
+    split
+    · rename_i r heq
+      have : d = '-' := by
+        simp only [List.cons.injEq] at heq; exact heq.1
+      exact absurd this hdm
+    · rename_i r hnot
+      exact this
+
+/-- `'%.6f'` text of a finite value, stripped as `format_float` strips it: sign, digits, and either nothing or a
+point followed by 1–6 digits. -/
+theorem strip_fmt6 (s : Bool) (m : Nat) :
+    ∃ D F, D ≠ [] ∧ (∀ c ∈ D, isDigit c = true) ∧ (F = [] ∨ (F.length ≤ 6 ∧ ∀ c ∈ F, isDigit c = true)) ∧
+      rstrip '.' (rstrip '0' (fmt6 (.fin s m))) =
+        (if s then ['-'] else []) ++ D ++ (if F = [] then [] else '.' :: F) ∧
+      (fmt6 (.fin s m)).contains '.' = true := by
+  let n := roundHE (m * 1000000) U
+  let sg : List Char := if s then ['-'] else []
+  let D := natDigits (n / 1000000)
+  let F0 := pad6 (n % 1000000)
+  obtain ⟨hD1, hD2⟩ := natDigits_spec (n / 1000000)
+  have hT : fmt6 (.fin s m) = (sg ++ D ++ ['.']) ++ F0 := by
+    show sg ++ D ++ '.' :: F0 = _
+    simp
+  have hF0 : ∀ c ∈ F0, isDigit c = true := pad6_all _
+  let F := rstrip '0' F0
+  have hFsub : ∀ c ∈ F, isDigit c = true := fun c hc => hF0 c (rstrip_subset _ _ c hc)
+  have hFlen : F.length ≤ 6 := by
+    have := rstrip_length_le '0' F0
+    simpa [F0, pad6_length] using this
+  have hdot0 : rstrip '0' ['.'] = ['.'] := by decide
+  have hdotd : rstrip '.' ['.'] = [] := by decide
+  have hsgD : rstrip '.' (sg ++ D) = sg ++ D := by
+    have hD1' : D ≠ [] := hD1
+    rw [rstrip_append, rstrip_all_digits_noop_dot D hD1 hD2, if_neg hD1']
+  refine ⟨D, F, hD1, hD2, ?_, ?_, ?_⟩
+  · by_cases h : F = []
+    · exact Or.inl h
+    · exact Or.inr ⟨hFlen, hFsub⟩
+  · rw [hT, rstrip_append '0']
+    by_cases h : F = []
+    · have h' : rstrip '0' F0 = [] := h
+      simp only [h', if_true]
+      have : rstrip '0' (sg ++ D ++ ['.']) = sg ++ D ++ ['.'] := by
+        rw [rstrip_append, hdot0]; simp
+      rw [this, rstrip_append '.', hdotd]
+      simp only [if_true]
+      rw [hsgD]
+      simp only [h, if_true, List.append_nil]
+      rfl
+    · have h' : rstrip '0' F0 ≠ [] := h
+      simp only [h', if_false]
+      rw [rstrip_append '.', rstrip_all_digits_noop_dot F h hFsub]
+      simp only [h, if_false]
+      simp only [List.append_assoc, List.singleton_append]
+      rfl
+  · rw [hT]
+    simp
+
+
+/-- characters of plain decimal notation -/
+def plainChar (c : Char) : Bool := c == '-' || c == '.' || isDigit c
+
+theorem formatFloat_shape (x : Val) (hy : (add x zero).isFinite = true) :
+    shapeOK (formatFloat x) = true ∧ formatFloat x ≠ ['-', '0'] ∧ ∀ c ∈ formatFloat x, plainChar c = true := by
+  cases hadd : add x zero with
+  | inf s => rw [hadd] at hy; cases hy
+  | nan => rw [hadd] at hy; cases hy
+  | fin s m =>
+    obtain ⟨D, F, hD1, hD2, hF, hstrip, hcont⟩ := strip_fmt6 s m
+    have hold : formatFloatOld x = (if s then ['-'] else []) ++ D ++ (if F = [] then [] else '.' :: F) := by
+      unfold formatFloatOld
+      simp only [hadd, hcont, if_true]
+      exact hstrip
+    have hshape := shape_of_parts s D F hD1 hD2 hF
+    have hchars : ∀ c ∈ formatFloatOld x, plainChar c = true := by
+      rw [hold]
+      intro c hc
+      simp only [List.mem_append] at hc
+      rcases hc with (hc | hc) | hc
+      · cases s <;> simp at hc
+        rw [hc]; decide
+      · simp [plainChar, hD2 c hc]
+      · by_cases hF0 : F = []
+        · simp [hF0] at hc
+        · simp only [hF0, if_false, List.mem_cons] at hc
+          rcases hc with hc | hc
+          · rw [hc]; decide
+          · rcases hF with h | ⟨_, h⟩
+            · exact absurd h hF0
+            · simp [plainChar, h c hc]
+    unfold formatFloat
+    simp only
+    by_cases hz : (formatFloatOld x == ['-', '0']) = true
+    · simp only [hz, if_true]
+      exact ⟨by decide, by decide, by decide⟩
+    · have hz' : (formatFloatOld x == ['-', '0']) = false := by simpa using hz
+      simp only [hz', Bool.false_eq_true, if_false]
+      refine ⟨by rw [hold]; exact hshape, ?_, hchars⟩
+      intro h
+      rw [h] at hz'
+      exact absurd hz' (by decide)
+
+end B64
